@@ -194,6 +194,9 @@ func TestC02(t *testing.T) {
 	for _, w := range big {
 		cases = append(cases, sqcase{w, vkit.Pick(rng, vkit.Layouts), rng.Intn(w * w / 2), false})
 	}
+	// one namespace over many rows (27 and 19 of 32): row counts that are neither small nor a multiple of
+	// a worker-pool size, with every row attacked in turn (per-row operators below)
+	cases = append(cases, sqcase{32, "single", 32*5 + 3, false}, sqcase{32, "single", 32 * 13, false})
 
 	var wg sync.WaitGroup
 	sem := make(chan struct{}, 16)
@@ -505,6 +508,16 @@ func (c *c02) forge(r *vkit.RNG, sq, tw *vkit.Square, tacc *eds.Rsmt2D, sqKey st
 		}
 	} else {
 		ks = []int{0, len(honest) / 2, len(honest) - 1}
+	}
+	// every row of a many-row namespace loses its last share in turn (valid proof for what is left)
+	if len(honest) > 3 {
+		for k := range honest {
+			ri := rows[k]
+			if rs, from := sq.RowSharesOf(ns, ri); len(rs) > 1 {
+				try("row/every-row/drop-last+valid-subproof", withRow(k, shwap.RowNamespaceData{Shares: c02CloneShares(rs[:len(rs)-1]),
+					Proof: vkit.RangeProof(sq.ExtRowShares(ri), w, ri, from, from+len(rs)-1)}))
+			}
+		}
 	}
 	for _, k := range ks {
 		ri := rows[k]
